@@ -426,7 +426,9 @@ func (ix *idxEngine) nonNilByRange(fn *ssa.Function, call *ssa.Call, callee *ssa
 
 // liftFieldGuard: the guard  X + .. <= fieldnow(recv.f)  could not be shown inside fn. If fn is internal, recv is
 // one of fn's parameters (or an immutable field of one) and some parameter term A of fn satisfies
-//   (A <= fieldnow(recv.f))  =>  guard,
+//
+//	(A <= fieldnow(recv.f))  =>  guard,
+//
 // then it suffices that at every call site of fn the actual for A is <= the current value of that field of the
 // actual receiver: the field never decreases, so the bound still holds when the inner call is made.
 func (ix *idxEngine) liftFieldGuard(fn *ssa.Function, call *ssa.Call, g constraint, extra []constraint, recvVal ssa.Value) (bool, string) {
